@@ -148,17 +148,9 @@ package rpc
 //@   ensures implies(result > 0 && b[0] < 0x80, result == 1 + uint64(b[0]) && vlen(b) == 1 && vval(b) == uint64(b[0]))
 // decode-side format of one length-prefixed field at offset o of frame d: the field is the vval(d[o:]) bytes behind the
 // vlen(d[o:])-byte length prefix (an empty field leaves the destination as it was: empty); lpEnd = offset behind the field
-//@ pure lpAt(f []byte, d []byte, o uint64) bool = len(f) == int(vval(d[o:])) && implies(len(f) > 0, arr(f) == arr(d) && off(f) == off(d) + int(o + vlen(d[o:])))
-//@ pure lpStrAt(f string, d []byte, o uint64) bool = len(f) == int(vval(d[o:])) && implies(len(f) > 0, arr(f) == arr(d) && off(f) == off(d) + int(o + vlen(d[o:])))
-//@ pure lpEnd(d []byte, o uint64) uint64 = o + vlen(d[o:]) + vval(d[o:])
-// decode-side format of a canonical protobuf request/response frame (fields in order 1,2,3(,4), each at most once, nothing else):
-// pbP<k> = field k is present at its place, pbE<k> = offset behind field k; canonical: pbE3(d) == len(d)
-//@ pure pbP1(d []byte) bool = len(d) > 0 && d[0] == 0x08
-//@ pure pbE1(d []byte) uint64 = ite(pbP1(d), 1 + vlen(d[1:]), 0)
-//@ pure pbP2(d []byte) bool = pbE1(d) < uint64(len(d)) && d[pbE1(d)] == 0x12
-//@ pure pbE2(d []byte) uint64 = ite(pbP2(d), lpEnd(d, pbE1(d)+1), pbE1(d))
-//@ pure pbP3(d []byte) bool = pbE2(d) < uint64(len(d)) && d[pbE2(d)] == 0x1a
-//@ pure pbE3(d []byte) uint64 = ite(pbP3(d), lpEnd(d, pbE2(d)+1), pbE2(d))
+//@ pure lpAt(f []byte, d []byte, o uint64) bool = len(f) == int(vval(d[o:])) && implies(len(f) > 0, arr(f) == arr(d) && off(f) == off(d) + int(o) + int(vlen(d[o:])))
+//@ pure lpStrAt(f string, d []byte, o uint64) bool = len(f) == int(vval(d[o:])) && implies(len(f) > 0, arr(f) == arr(d) && off(f) == off(d) + int(o) + int(vlen(d[o:])))
+//@ pure lpEnd(d []byte, o uint64) uint64 = o + (vlen(d[o:]) + vval(d[o:]))
 //@ func (*pbRequest).Unmarshal
 //@   case safety:
 //@     property C08
@@ -174,16 +166,6 @@ package rpc
 //@     requires res != nil && len(res.Error) == 0 && len(res.Reply) == 0
 //@     loop 1: invariant offset <= length && sub(res.Error, data) && sub(res.Reply, data)
 //@     ensures implies(err == nil, sub(res.Error, data) && sub(res.Reply, data))
-//@   case format:
-//@     property C07 C01 C06
-//@     opaque vlen, vval
-//@     requires res != nil && len(res.Error) == 0 && len(res.Reply) == 0
-//@     requires pbE3(data) == uint64(len(data))
-//@     loop 1: unroll 4
-//@     ensures implies(err == nil, res.Seq == ite(pbP1(data), vval(data[1:]), old(res.Seq)))
-//@     ensures implies(err == nil, ite(pbP2(data), lpStrAt(res.Error, data, pbE1(data)+1), len(res.Error) == 0))
-//@     ensures implies(err == nil, ite(pbP3(data), lpAt(res.Reply, data, pbE2(data)+1), len(res.Reply) == 0))
-//@     ensures implies(implies(pbP1(data), fitsVarint(data[1:])) && implies(pbP2(data), fitsF(data[pbE1(data)+1:])) && implies(pbP3(data), fitsF(data[pbE2(data)+1:])), err == nil)
 
 //@ func (*request).Unmarshal
 //@   case safety:
@@ -195,6 +177,9 @@ package rpc
 //@     property C07 C01 C06
 //@     opaque vlen, vval
 //@     requires req != nil && len(req.Upgrade) == 0 && len(req.ServiceMethod) == 0 && len(req.Args) == 0
+//@     cut if.done#3: offset == vlen(data) && req.Seq == vval(data) && n == vlen(data[offset:]) + vval(data[offset:]) && lpAt(req.Upgrade, data, offset) && len(req.ServiceMethod) == 0 && len(req.Args) == 0
+//@     cut if.done#5: offset == lpEnd(data, vlen(data)) && req.Seq == vval(data) && n == vlen(data[offset:]) + vval(data[offset:]) && lpAt(req.Upgrade, data, vlen(data)) && lpStrAt(req.ServiceMethod, data, offset) && len(req.Args) == 0
+//@     cut if.done#7: offset == lpEnd(data, lpEnd(data, vlen(data))) && req.Seq == vval(data) && n == vlen(data[offset:]) + vval(data[offset:]) && lpAt(req.Upgrade, data, vlen(data)) && lpStrAt(req.ServiceMethod, data, lpEnd(data, vlen(data))) && lpAt(req.Args, data, offset)
 //@     ensures implies(err == nil, req.Seq == vval(data) && lpAt(req.Upgrade, data, vlen(data)) && lpStrAt(req.ServiceMethod, data, lpEnd(data, vlen(data))) &&
 //@         lpAt(req.Args, data, lpEnd(data, lpEnd(data, vlen(data)))) && result == lpEnd(data, lpEnd(data, lpEnd(data, vlen(data)))))
 //@     ensures implies(fitsVarint(data) && fitsF(data[vlen(data):]) && fitsF(data[lpEnd(data, vlen(data)):]) && fitsF(data[lpEnd(data, lpEnd(data, vlen(data))):]), err == nil)
@@ -209,6 +194,8 @@ package rpc
 //@     property C07 C01 C06
 //@     opaque vlen, vval
 //@     requires res != nil && len(res.Error) == 0 && len(res.Reply) == 0
+//@     cut if.done#3: offset == vlen(data) && res.Seq == vval(data) && n == vlen(data[offset:]) + vval(data[offset:]) && lpStrAt(res.Error, data, offset) && len(res.Reply) == 0
+//@     cut if.done#5: offset == lpEnd(data, vlen(data)) && res.Seq == vval(data) && n == vlen(data[offset:]) + vval(data[offset:]) && lpStrAt(res.Error, data, vlen(data)) && lpAt(res.Reply, data, offset)
 //@     ensures implies(err == nil, res.Seq == vval(data) && lpStrAt(res.Error, data, vlen(data)) && lpAt(res.Reply, data, lpEnd(data, vlen(data))) && result == lpEnd(data, lpEnd(data, vlen(data))))
 //@     ensures implies(fitsVarint(data) && fitsF(data[vlen(data):]) && fitsF(data[lpEnd(data, vlen(data)):]), err == nil)
 
